@@ -290,8 +290,8 @@ theorem c06_await_own_handle {n : Nat} {a : Bool} {s : State} (h : Reachable n a
     have hE : awaitExtra s o me = [] := by simp [awaitExtra, ← hd1, hmem]
     rw [hE, List.append_nil, ← hd1] at hqq
     rw [hE, List.append_nil] at hgv
-    rw [← hd2] at hr
     generalize hY : resumeAll (awaitQueue s i o me) [popValue s o] = Y at g1 g2 hqq hr hgv ⊢
+    rw [← hd2] at hr
     have hidx : Y.queue.idxOf me + 1 = s.queue.length + (rest.idxOf me + 1) := by
       rw [hqq, idxOf_append_right _ _ _ hq]; omega
     have htake : Y.queue.take (Y.queue.idxOf me + 1) = s.queue ++ rest.take (rest.idxOf me + 1) := by
@@ -329,7 +329,7 @@ theorem c06_await_own_handle {n : Nat} {a : Bool} {s : State} (h : Reachable n a
     have hres : resumed { flushAll Y with active := false } = resumed s ++ [last] ++ rest := by
       have e : resumed { flushAll Y with active := false } = resumed Y ++ Y.queue := resumed_flushAll Y
       rw [e, hr', hqq']
-    refine ⟨hgv', ?_, ?_, ?_, fun hf => by rw [ha'] at hf; cases hf, fun _ => ⟨hres, rfl⟩⟩
+    refine ⟨hgv', ?_, ?_, ?_, (fun hf => by rw [ha'] at hf; cases hf), fun _ => ⟨hres, rfl⟩⟩
     · rw [handles_of_eq (s' := { flushAll Y with active := false }) (s := Y) rfl rfl]; exact g1
     · intro k hk; rw [handles_of_eq (s' := { flushAll Y with active := false }) (s := Y) rfl rfl]; exact g2 k hk
     · rw [hres]; show _ ++ [] = _; rw [hq0]; simp
